@@ -126,4 +126,25 @@ Section PD.
     { unfold populate, ser, frag0. destruct (pd_in p); [congruence| | |]; destruct d; try discriminate; reflexivity. }
     rewrite E. now apply prim_roundtrip.
   Qed.
+
+  (* an array default is written as the serialisation of its element texts: it decodes back to the
+     elements read at the declared item type (C05_array_roundtrip) *)
+  Theorem populated_array_reads_back p l ic vs :
+    pd_in p <> LPath ->
+    allowed_cell (pd_in p) (eff_style p) (eff_explode p) = true ->
+    defined_cell p (SArr (map sprint l)) = true ->
+    shape_of (pd_schema p) = ShArr (Some ic) ->
+    l <> [] -> Forall (fun t => t <> ""%string) (map sprint l) ->
+    (pd_in p = LQuery -> eff_explode p = true \/ clean (arr_sep LQuery (eff_style p) (eff_explode p)) (map sprint l)) ->
+    (pd_in p <> LQuery -> clean (arr_sep (pd_in p) (eff_style p) (eff_explode p)) (map sprint l)) ->
+    leaves pi64 pi32 pf (map sprint l) ic = Some vs -> Forall (fun v => v <> PNil) vs ->
+    decode_param pi64 pi32 pf p (populate sprint p frag0 (JArr l)) = DRes (PA vs) true None.
+  Proof.
+    intros Hp Hall Hdef Hsh Hne Hnn Hq Hnq Hl Hv.
+    assert (E : populate sprint p frag0 (JArr l) = ser p (SArr (map sprint l))).
+    { unfold populate, ser, frag0, join_texts. destruct (pd_in p); [congruence| | |]; cbn [ser_query ser_text]; try reflexivity.
+      destruct (eff_explode p); reflexivity. }
+    rewrite E. apply (array_roundtrip pi64 pi32 pf p (map sprint l) ic vs); auto.
+    destruct l; [congruence|discriminate].
+  Qed.
 End PD.
